@@ -72,9 +72,11 @@ func systemHistory(w *tracew.Writer, seed int64, run, depth int, which string) e
 		}
 		lp.Bridge, lp.BridgeAbs, lp.Txs = bp.Bridge, bp.BridgeAbs, bp.Txs
 		lp.LockOU, lp.BridgeOU = dirty == "bridge", dirty == "lock"
-		if _, err := s.RunBlock(lp); err != nil {
+		res, err := s.RunBlock(lp)
+		if err != nil {
 			return err
 		}
+		bg.blockDone(res != nil && res.Res != nil && len(res.Res.TxResults) > 0 && res.Res.TxResults[0].Code == 0)
 	}
 	return nil
 }
